@@ -118,7 +118,10 @@ def poly_terms(n):
     """as poly_canon but keeping every listed term, including exact zeros (which terms survive a tolerance is the question)."""
     if not (isinstance(n, (list, tuple)) and n and n[0] == "poly"):
         return n
-    return sorted((tuple(g), complex(np.round(c * 1j ** int(p), 4))) for g, p, c in zip(n[1], n[2], n[3]))
+    terms = sorted((tuple(g), complex(np.round(c * 1j ** int(p), 4))) for g, p, c in zip(n[1], n[2], n[3]))
+    if all(c == 0 for _, c in terms):
+        return "zero polynomial"      # an empty list of terms and 0 * identity (what the torch port returns when everything cancels) are one operator
+    return terms
 
 
 def both(rec, sub, case, fa, fb, NB, TB, nt=True, canon=None, tags=None):
